@@ -143,3 +143,69 @@ Definition syminfo_get_symbol (img : list Z) (c : symcfg) (s : seccfg) (n : Z) :
 (* SUNWSyminfoTableSection.iter_symbols: for i in range(1, self.num_symbols() + 1): yield self.get_symbol(i) *)
 Definition syminfo_iter_symbols (img : list Z) (c : symcfg) (s : seccfg) : res (list symbol) :=
   mapM (syminfo_get_symbol img c s) (py_range 1 (syminfo_num_symbols s + 1)).
+
+(* ------------------------------------------------------------------ the section object as a state machine.
+   SymbolTableSection has ONE mutable attribute, self._symbol_name_map (None until the first
+   get_symbol_by_name).  A history is any sequence of calls on one object. *)
+Definition memo := option (list (list Z * list Z)).
+
+Inductive symop :=
+| OpNum                      (* num_symbols() *)
+| OpGet (n : Z)              (* get_symbol(n) *)
+| OpIter (k : Z)             (* g = iter_symbols(); next(g) up to k times; then the generator is abandoned / closed *)
+| OpByName (q : list Z).     (* get_symbol_by_name(q) *)
+
+Inductive symobs :=
+| ObsNum (z : Z)
+| ObsSym (r : res symbol)
+| ObsSyms (r : res (list symbol))
+| ObsByName (r : res (option (list symbol))).
+
+(* a generator over  for i in range(self.num_symbols()): yield self.get_symbol(i)  consumed k times:
+   the first min(k, num_symbols) symbols; it touches no attribute of the section *)
+Definition iter_symbols_prefix (img : list Z) (c : symcfg) (k : Z) : res (list symbol) :=
+  mapM (get_symbol img c) (py_range 0 (Z.min k (num_symbols c))).
+
+(* the results of a loop body up to its first exception *)
+Fixpoint take_ok {A B} (f : A -> res B) (l : list A) : list B * option err :=
+  match l with
+  | [] => ([], None)
+  | x :: r => match f x with
+              | Ok y => let (ys, e) := take_ok f r in (y :: ys, e)
+              | Err e => ([], Some e)
+              end
+  end.
+
+(* get_symbol_by_name on an object whose attribute is [m]:
+     if self._symbol_name_map is None:
+         self._symbol_name_map = defaultdict(list)           (assigned BEFORE the loop: an exception
+         for i, sym in enumerate(self.iter_symbols()): ...     in the loop leaves the partial map behind)
+     symnums = self._symbol_name_map.get(name) ...                                                   *)
+Definition get_symbol_by_name_st (img : list Z) (c : symcfg) (m : memo) (name : list Z)
+  : memo * res (option (list symbol)) :=
+  match m with
+  | Some symbol_name_map => (m, get_symbol_by_name_with img c symbol_name_map name)
+  | None =>
+      let (syms, e) := take_ok (get_symbol img c) (py_range 0 (num_symbols c)) in
+      let symbol_name_map := name_map_go [] 0 syms in
+      (Some symbol_name_map,
+       match e with
+       | Some e => Err e
+       | None => get_symbol_by_name_with img c symbol_name_map name
+       end)
+  end.
+
+Definition sym_step (img : list Z) (c : symcfg) (st : memo) (op : symop) : memo * symobs :=
+  match op with
+  | OpNum => (st, ObsNum (num_symbols c))
+  | OpGet n => (st, ObsSym (get_symbol img c n))
+  | OpIter k => (st, ObsSyms (iter_symbols_prefix img c k))
+  | OpByName q => let (st', r) := get_symbol_by_name_st img c st q in (st', ObsByName r)
+  end.
+
+Fixpoint sym_run (img : list Z) (c : symcfg) (st : memo) (ops : list symop) : memo * list symobs :=
+  match ops with
+  | [] => (st, [])
+  | op :: r => let (st', o) := sym_step img c st op in
+               let (st'', os) := sym_run img c st' r in (st'', o :: os)
+  end.
